@@ -47,6 +47,9 @@ class SliceV(object):
     def __init__(self, lo, hi, step):
         self.lo, self.hi, self.step = lo, hi, step
 
+    def is_full(self):
+        return self.lo is None and self.hi is None and self.step is None
+
 
 class MatchV(object):
     """Result of re match/search: only what the contracts of `re` expose."""
@@ -136,6 +139,10 @@ def py_len(I, v):
         if all(p is True for (_, p) in v.entries.values()):
             return len(v.entries)
         return mk_int(z3.Sum(*[z3.If(p, 1, 0) if p is not True else z3.IntVal(1) for (_, p) in v.entries.values()]))
+    if isinstance(v, Obj):
+        m = I.find_method(v, "__len__")
+        if m is not None:
+            return I.call(m, [], {})
     raise OutOfReach("len of %r" % (v,))
 
 
@@ -161,6 +168,10 @@ def iterate(I, v):
         return v.items(I)
     if isinstance(v, SStr):
         raise OutOfReach("iteration over a symbolic string needs a loop contract")
+    if isinstance(v, Obj):
+        m = I.find_method(v, "__iter__")
+        if m is not None:
+            return iterate(I, I.call(m, [], {}))
     raise OutOfReach("iteration over %r" % (v,))
 
 
@@ -686,6 +697,13 @@ def delitem(I, v, idx, node=None):
             del v.items[idx]
             return
         raise PyRaise("IndexError", "list index out of range", site=node)
+    if isinstance(v, ListV) and isinstance(idx, SliceV) and v.prefix is None and idx.is_full():
+        v.items[:] = []
+        return
+    if isinstance(v, Obj):
+        m = I.find_method(v, "__delitem__")
+        if m is not None:
+            return I.call(m, [idx], {})
     raise OutOfReach("del item on %r" % (v,))
 
 
@@ -1195,7 +1213,11 @@ def dict_method(I, d, name, args, kwargs, node=None):
         dict_set(I, d, k, args[1] if len(args) > 1 else None)
         return args[1] if len(args) > 1 else None
     if name == "clear":
+        if d.abstract is not None:
+            raise OutOfReach("clear on an abstract map")
         d.entries = {}
+        if d.sym_items is not None:
+            d.sym_items = []
         return None
     raise OutOfReach("dict method %s" % name)
 
@@ -1341,7 +1363,7 @@ def _isinstance(I, args, kwargs):
                 return True
             if tv == x.name or (tv == "bool" and x.name == "int"):
                 return True
-        elif isinstance(x, NativeFn) and x.name in ("str", "int"):
+        elif isinstance(x, NativeFn) and x.name in ("str", "int", "tuple", "list", "dict", "set", "frozenset", "bool", "bytes"):
             if tv == x.name or (tv == "bool" and x.name == "int"):
                 return True
         elif isinstance(x, ClassInfo):
